@@ -1,4 +1,5 @@
 import H3.Lemmas.C04
+import H3.Lemmas.Setup
 /-! # C04 — control and unidirectional stream rules are enforced with the right error
 
 Property theorems only; vocabulary and proofs are in `H3/Lemmas/C04.lean`.
@@ -174,5 +175,113 @@ example : (driveAll true { role := .server } 3 { control := true } { flag := tru
 example : (driveAll true { role := .client } 3 { control := true } { flag := true }
     [.item (.frame (.settings [])), .pend, .item (.frame (.maxPushId 1))] []).2.1 = none := by decide +kernel
 
+
+/-! ## Transport faults: the grease stream, the own control stream, a server-initiated bidi stream
+
+`C04_acted_once` already quantifies over every grease script, `err` answers included (`GAns.err` at
+any call of `poll_open_send` / `send_data` / `poll_ready` / `poll_finish`).  What is added here is
+its consequence in the form the correspondence run exercises (engine `ctl` with injected stream
+errors on the grease stream, engine `flt` with connection errors), and the error arms of the
+endpoint's own control stream and of client `poll_close`, over `H3.Setup`. -/
+
+/-- **An error on the grease stream is never a connection error and never loses a frame.**  Two runs
+    of the polled driver over the same inputs that differ only in what the grease stream's calls
+    answer (`g`, `g'`: any patterns of pending / ok / error) and in the grease state they start
+    from end alike: the same frames handed to the role handler, the same connection error (or
+    none), the same connection state. -/
+theorem C04_grease_error_harmless (cfg : Cfg) (c : Conn) (gs gs' : Grease) (ins : List In) (g g' : List GAns)
+    (hc : c.err = none) :
+    driveAll false cfg (ins.length + 1) c gs ins g = driveAll false cfg (ins.length + 1) c gs' ins g' := by
+  rw [C04_acted_once_any cfg c gs ins g hc, C04_acted_once_any cfg c gs' ins g' hc]
+
+/-- **After an error the grease stream is given up.**  Whatever step the grease machine is at, a
+    call answering an error makes `poll_grease_stream` answer `Ready` with
+    `send_grease_stream_flag = false` and the step unchanged; with the flag off `poll_control` does
+    not touch the grease stream again (the script is left as it is) and hands the frame on. -/
+theorem C04_grease_error_gives_up (gs : Grease) (r : List GAns) :
+    (pollGrease gs (.err :: r)).1 = true ∧ (pollGrease gs (.err :: r)).2.1 = { gs with flag := false } ∧
+    ∀ (blocking : Bool) (f : Frame) (c : Conn) (ins : List In) (g : List GAns),
+      afterFrame blocking f c { gs with flag := false } ins g =
+        { res := .ready f, conn := c, gs := { gs with flag := false }, ins := ins, g := g } := by
+  refine ⟨?_, ?_, ?_⟩
+  · cases gs with
+    | mk flag step => cases step <;> simp [pollGrease, gOpen, gSend, gReady, gFinish, nextAns]
+  · cases gs with
+    | mk flag step => cases step <;> simp [pollGrease, gOpen, gSend, gReady, gFinish, nextAns]
+  · intro blocking f c ins g
+    simp [afterFrame]
+
+-- non-vacuity: SETTINGS, GOAWAY(0) to a server whose grease stream fails at the open / at
+-- `send_data` / at `poll_ready` after a `Pending` / at `poll_finish`: both frames are acted upon,
+-- no connection error; a client still rejects MAX_PUSH_ID behind a failing grease stream
+example : ∀ g ∈ [[GAns.err], [.ok, .err], [.ok, .ok, .pending, .err], [.ok, .ok, .ok, .err]],
+    driveAll false { role := .server } 4 { control := true } { flag := true }
+      [.item (.frame (.settings [])), .pend, .item (.frame (.goaway 0))] g =
+    ([.settings [], .goaway 0], none, { control := true, gotSettings := true, recvClosing := some 0 }) := by
+  decide +kernel
+example : (driveAll false { role := .client } 3 { control := true } { flag := true }
+    [.item (.frame (.settings [])), .item (.frame (.maxPushId 1))] [.ok, .err]).2.1 = some 261 := by decide +kernel
+example : pollGrease { flag := true, step := .dataPrepared } [.err, .ok] =
+    (true, { flag := false, step := .dataPrepared }, [.ok]) := by decide
+
+section faults
+open H3.Setup H3.ErrCell H3.Gen.Consts
+
+/-- **The endpoint's own control stream.**  A write on it (`send_control_stream_headers` during the
+    setup, `shutdown` later) that the transport answers with a stream error — the peer's
+    STOP_SENDING (`StreamTerminated`) or `Unknown` — is the connection error
+    H3_CLOSED_CRITICAL_STREAM (RFC 9114 §6.2.1), detected locally: `close` is called once with
+    0x0104 and the call returns `Local` with that code; a connection error from the transport is
+    passed on as it is, closing nothing unless it is the trait implementation's `InternalError`
+    (then `close(H3_INTERNAL_ERROR)`).  The same arms serve a failed read on the peer's control
+    stream.  Once an error has been handled it is the one returned, and nothing more is closed. -/
+theorem C04_own_control_stream_error :
+    (∀ c, shutdownWrite {} (some (.terminated c)) =
+      ({ handled := some (.localApp 0x0104 0), closes := [0x0104] }, some (.localApp 0x0104 0))) ∧
+    (∀ t, (shutdownWrite {} (some (.unknown t))).2 = some (.localApp 0x0104 1) ∧
+      (shutdownWrite {} (some (.unknown t))).1.closes = [0x0104]) ∧
+    (∀ q, (shutdownWrite {} (some (.conn q))).2 = some (convert (.quic q)) ∧
+      OutcomeOK (convert (.quic q)) (shutdownWrite {} (some (.conn q))).1.closes) ∧
+    (∀ e, finishHeaders {} (some e) = shutdownWrite {} (some e)) ∧
+    (∀ (d : Drv) (h : CErr) (e : SErr), d.handled = some h → shutdownWrite d (some e) = (d, some h)) := by
+  refine ⟨fun c => by simp [shutdownWrite, raise, ctlStreamErr, convert, closeCode, closeOf, CODE_H3_CLOSED_CRITICAL_STREAM],
+    fun t => by simp [shutdownWrite, raise, ctlStreamErr, convert, closeCode, closeOf, CODE_H3_CLOSED_CRITICAL_STREAM],
+    fun q => ?_, fun e => rfl, fun d h e hd => by simp [shutdownWrite, raise, hd]⟩
+  simp only [shutdownWrite, ctlStreamErr, H3.Lemmas.Setup.raise_fresh]
+  exact ⟨trivial, H3.Lemmas.Setup.outcome_convert _⟩
+
+example : shutdownWrite {} (some (.conn (.internal 3))) =
+    ({ handled := some (.remote (.internal 3)), closes := [0x0102] }, some (.remote (.internal 3))) := by decide
+example : shutdownWrite {} (some (.conn .timeout)) = ({ handled := some .timeout, closes := [] }, some .timeout) := by
+  decide
+
+/-- **A client that is handed a server-initiated bidirectional stream** (RFC 9114 §6.1): when the
+    control loop of `poll_close` has nothing more to do and `poll_accept_bi` yields a stream, the
+    connection error is H3_STREAM_CREATION_ERROR, `close(0x0103)` once; if the connection had
+    failed before — or the transport answers `poll_accept_bi` with a connection error — that
+    error is the outcome and nothing (more) is closed for the stream; `Pending` raises nothing. -/
+theorem C04_client_rejects_server_bidi :
+    clientAcceptBi {} .stream =
+      ({ handled := some (.localApp 0x0103 0), closes := [0x0103] }, some (.localApp 0x0103 0)) ∧
+    (∀ (d : Drv) (h : CErr) (a : AccBi), d.handled = some h → a ≠ .pending → clientAcceptBi d a = (d, some h)) ∧
+    (∀ q, (clientAcceptBi {} (.err q)).2 = some (convert (.quic q)) ∧
+      OutcomeOK (convert (.quic q)) (clientAcceptBi {} (.err q)).1.closes) ∧
+    (∀ d, clientAcceptBi d .pending = (d, none)) := by
+  refine ⟨by simp [clientAcceptBi, raise, convert, closeCode, closeOf, CODE_H3_STREAM_CREATION_ERROR], ?_, ?_,
+    fun d => rfl⟩
+  · intro d h a hd ha
+    cases a with
+    | pending => exact absurd rfl ha
+    | stream => simp [clientAcceptBi, raise, hd]
+    | err q => simp [clientAcceptBi, raise, hd]
+  · intro q
+    simp only [clientAcceptBi, H3.Lemmas.Setup.raise_fresh]
+    simp only [raise]
+    exact ⟨trivial, H3.Lemmas.Setup.outcome_convert _⟩
+
+example : clientAcceptBi {} (.err (.appClose 0x100)) =
+    ({ handled := some (.remote (.appClose 0x100)), closes := [] }, some (.remote (.appClose 0x100))) := by decide
+
+end faults
 
 end H3.Props.C04
